@@ -248,6 +248,16 @@ def required_labels(tier):
     return ['layout', 'sweep', 'family-max', 'family-burst', 'family-random', 'M1', 'M2', 'M3', 'M4', 'v27-40']
 
 
+def _fuzz(tier):
+    """Coverage-guided phase (atheris), thorough tier (or VERIF_FUZZ_RUNS=<n> in any tier)."""
+    import os
+    runs = int(os.environ.get('VERIF_FUZZ_RUNS', '0' if tier == 'quick' else '320000'))
+    if not runs:
+        return []
+    from .. import fuzz
+    return [fuzz.fuzz_phase(__name__, runs)]
+
+
 def phases(tier, seed):
     n = 4800 if tier == 'quick' else 120000
     return [
@@ -255,4 +265,4 @@ def phases(tier, seed):
              note='all 168 (version, level) block layouts; per layout several contents x fault families; '
                   'the error patterns themselves are sampled (except the single-codeword sweep)'),
         Search('free', free_cases(), n),
-    ]
+    ] + _fuzz(tier)
